@@ -149,7 +149,7 @@ def run(tier, seed):
     ws = workloads(tier)
     chk = core.Check("C10", tier, "model_checking",
                      f"{len(ws)} workloads (2-3 sessions, 1-2 statements each: CREATE/DROP TABLE incl. same names, INSERT, DELETE, SELECT count; one compactor pass; 13 of them also on the memory engine) x every "
-                     f"interleaving at the gates [run.begin, run.planned, txn.pinned, commit.begin, create_table.persisted, drop_table.applied, compactor.pass] with <= {ws[0]['bound']} preemptions; "
+                     f"interleaving at the gates [run.begin, run.planned, txn.pinned, commit.begin, commit.built (before the manifest append), create_table.persisted, drop_table.applied, compactor.pass] with <= {ws[0]['bound']} preemptions; "
                      "a case = (workload, schedule); oracle: exists serial order of the acknowledged statements explaining all results and the final tables; "
                      "no panic/deadlock; shutdown+reopen succeed and show the same tables; non-trivial = >=1 preemption", seed)
     states, trans = set(), [0]
